@@ -259,16 +259,26 @@ func (e *Engine) chooseModel(st *State, c *callCtx, name string, lo, hi int) {
 	}
 	e.recordInput(st, name, "choose", 64, []*Term{v})
 	var alts []Alt
+	var vals []uint64
 	for i := lo; i <= hi; i++ {
 		k := e.intVal(i)
 		alts = append(alts, Alt{e.ctx.Eq(v, k), func(s *State) { e.finish(s, c, k) }})
+		vals = append(vals, k.val)
 	}
 	if len(alts) == 1 {
 		e.addPC(st, alts[0].cond)
+		if st.model != nil {
+			nm := make(map[string]uint64, len(st.model)+1)
+			for k, x := range st.model {
+				nm[k] = x
+			}
+			nm[v.name] = vals[0]
+			st.model = nm
+		}
 		e.finish(st, c, e.intVal(lo))
 		return
 	}
-	e.fork(st, alts)
+	e.forkFresh(st, v, vals, alts)
 }
 
 // checkAssert asks the solver for a counterexample to cond under the path condition.
